@@ -164,6 +164,12 @@ def gen_plan(seed, tier):
         # is a miss like any other (buffered if a slot is free)
         steps[-1].update(acts=[["output", W.OFPP_TABLE, 0]],
                          in_port=r.pick([W.OFPP_NONE, W.OFPP_NONE, port]))
+  rdp = Rng(mix(seed, "delport"))
+  if rdp.chance(0.25) and nports > 1:
+    # somewhere in the history a port is unplugged, possibly while packets
+    # that arrived on it (or on others) are held
+    steps.insert(rdp.randint(min(3, len(steps)), len(steps)),
+                 {"op": "del_port", "port": rdp.randint(1, nports)})
   return {"prop": PROP, "seed": seed, "cfg": cfg, "steps": steps}
 
 
